@@ -56,24 +56,28 @@ Definition apply_edits (d : fmap content) (es : list (path * option content)) : 
 Definition outs_of (l : list (path * content * Z)) : list outfile :=
   map (fun x => let '(p, d, h) := x in mkOut p d h false) l.
 
-Fixpoint hist_steps (opt : options) (links : list (path * path)) (st : state) (scs : list step_case) : bool :=
+Fixpoint hist_steps (fixed : bool) (opt : options) (links : list (path * path)) (st : state) (scs : list step_case) : bool :=
   match scs with
   | [] => true
   | (edits, (failed, onend), outs, ins, rewritten, after) :: r =>
     let phys := phys_links links in
     let st1 := mkState (apply_edits (disk st) edits) (latest st) in
     let oc := mkOutcome failed [] false (outs_of outs) false false onend in
-    let '(st2, res) := step phys opt st1 oc in
+    let '(st2, res) := step_gen phys fixed opt st1 oc in
     disk_eqb (disk st2) after
     && set_eqb (map phys (writes_of (r_effects res))) rewritten
     && list_eqb path_eqb (map o_path (r_outputs res)) (map (fun x => fst (fst x)) outs)
     && Bool.eqb (r_errors res) (failed || onend)
-    && hist_steps opt links st2 r
+    && hist_steps fixed opt links st2 r
   end.
-Definition hist_ok (c : hist_case) : bool :=
+Definition hist_ok (fixed : bool) (c : hist_case) : bool :=
   let '((w, a, s), links, d0, scs) := c in
-  hist_steps (mkOpts w a s) links (init d0) scs.
-Definition check_hist := mismatches hist_ok.
+  hist_steps fixed (mkOpts w a s) links (init d0) scs.
+(* the pinned code is [step] = [step_gen false]; [check_hist_fixed] is used to
+   evaluate fixes/C17-failed-rebuild-delete.diff (and becomes [check_hist] if
+   that repair is committed) *)
+Definition check_hist := mismatches (hist_ok false).
+Definition check_hist_fixed := mismatches (hist_ok true).
 
 (* the specification predicates on the observed trees (own = physical files
    written by earlier rebuilds of the history).  For inputs the part that
